@@ -74,6 +74,7 @@ type Unit struct {
 	globalsUsed map[string]bool
 	bvCallees map[string]bool
 	seqElemTypes map[string]types.Type
+	axiomsDone map[string]bool
 }
 
 type splitInfo struct {
